@@ -184,6 +184,7 @@ inline T step(T x, int n) {
   return x;
 }
 
+inline f128 pi_q() { return 4 * atanq((f128)1); }
 inline f128 parse_q(const char* s) { return strtoflt128(s, nullptr); }
 
 // FNV-1a over bytes; used for state hashing in the BFS explorers
